@@ -80,10 +80,14 @@ def run_product(ctx):
             "initial_position_ok": getattr(pm, "initial_position_ok", False),
             "coverage": sorted(set("%s|%d" % (ctx.P.inst[i]["path"], bb) for i, bb in pm.it.cov)),
         })
-    tmp = cp + ".tmp%d" % os.getpid()
-    with open(tmp, "w") as f:
-        json.dump(out, f)
-    os.replace(tmp, cp)
+    try:  # the cache is an optimisation: a concurrent clean-up of the cache directory must not fail the check
+        os.makedirs(d, exist_ok=True)
+        tmp = cp + ".tmp%d" % os.getpid()
+        with open(tmp, "w") as f:
+            json.dump(out, f)
+        os.replace(tmp, cp)
+    except OSError:
+        pass
     return out
 
 
@@ -116,7 +120,7 @@ def apply(ctx, res, rule_prefixes, strict_only=True, lenient_only=False, pid=Non
         n = 0
         for f in run["findings"]:
             if any(f["rule"].startswith(p) for p in rule_prefixes):
-                if key_filter is not None and not f["rule"].startswith("E2.") and not key_filter(f["key"]):
+                if key_filter is not None and not f["rule"].startswith("E2.") and not key_filter(f["key"], f.get("witness")):
                     continue
                 if relative and (f["rule"], f["key"]) in strict_keys:
                     res.infos.append("[%s] deviation shared with the strict parser, not attributed to C12: %s/%s" % (tag, f["rule"], f["key"]))
